@@ -230,14 +230,16 @@ func runEncCase(c *encCaseJ, em *emitter, index int) error {
 		}
 		return pos(t)
 	}
+	last := int64(0) // cursor as last observed; positional reads are not followed by a Seek (no observer effect)
 	for i, op := range c.Ops {
 		if f == nil {
 			f, err = open()
 			if err != nil {
 				return err
 			}
+			last = 0
 		}
-		before := unpos(tellOf())
+		before := last
 		r := map[string]interface{}{"ev": "EncOp", "i": i, "op": op.Op, "n": op.N, "off": pos(op.Off), "whence": op.Whence,
 			"k": 0, "err": "nil", "at": pos(0), "segs": []interface{}{}, "ret": pos(0), "before": pos(before), "fresh": false}
 		func() {
@@ -270,7 +272,13 @@ func runEncCase(c *encCaseJ, em *emitter, index int) error {
 			r["fresh"] = true
 			continue
 		}
-		r["tell"] = tellOf()
+		if op.Op == "readat" {
+			r["tell"] = pos(last)
+		} else {
+			t := tellOf()
+			r["tell"] = t
+			last = unpos(t)
+		}
 		em.emit(r)
 	}
 	if f != nil {
